@@ -122,6 +122,8 @@ fn cluster(args: &[String], seed: u64, out: &mut dyn Write) -> u64 {
             emit_p,
             verbose,
             shape: if voters > 0 { Some((voters, learners)) } else { None },
+            lockstep: args.iter().any(|a| a == "--lockstep"),
+            stabilise: args.iter().any(|a| a == "--stabilise"),
         };
         let res = gen_cluster::run_one(params, out);
         lines += res.p_lines as u64;
